@@ -110,11 +110,13 @@ Proof. intros Ht Hu E. pose proof (k1 _ _ I t Ht) as A. pose proof (k1 _ _ I u H
 End Derived.
 
 (* ---- automation ---- *)
-Definition did {T} (x : T) : Prop := True.
+Definition did (P : Prop) : Prop := True.
 Ltac note p :=
+  let T := type of p in
   lazymatch goal with
-  | _ : did p |- _ => fail
-  | _ => assert (did p) by exact Logic.I; let H := fresh "N" in pose proof p as H
+  | _ : did T |- _ => fail
+  | _ : T |- _ => fail
+  | _ => assert (did T) by exact Logic.I; let H := fresh "N" in pose proof p as H
   end.
 
 Ltac bnorm :=
@@ -161,6 +163,7 @@ Ltac upd_tac :=
 Ltac sat1 n s I :=
   match goal with
   | H : ?t < n |- _ => note (k1 n s I t H)
+  | H : n <= ?t |- _ => note (kout n s I t H)
   | H : cx s ?f = CLive ?t |- _ => note (k2 n s I f t H)
   | H : fs s ?f = FNone |- _ => note (k0 n s I f H)
   | H : q s ?f = true |- _ => first [note (kq n s I f H) | note (ref_q s f H)]
@@ -168,7 +171,7 @@ Ltac sat1 n s I :=
       first [note (khand n s I t f H) | note (ref_hand s t f H) | note (lt_hand n s I t f H)]
   | H : avail s ?f = Some AP1 |- _ => note (kav1 n s I f H)
   | H : avail s ?f = Some ASlot |- _ => note (kav2 n s I f H)
-  | H : avail s ?f = Some ?a |- _ => note (ref_avail s f a H)
+  | H : avail s ?f = Some ?a |- _ => first [is_var a; destruct a | note (ref_avail s f a H)]
   | H : holder s ?f = Some ?t |- _ => first [note (khold n s I f t H) | note (ref_holder s f t H)]
   | H : tosched s ?t = Some ?f |- _ =>
       first [note (ktos n s I t f H) | note (ref_tosched s t f H) | note (lt_tosched n s I t f H)]
@@ -199,4 +202,48 @@ Ltac fin :=
         | solve [intuition (subst; first [congruence | lia])] ].
 
 (* one clause of the invariant of the successor state *)
-Ltac clause n s I := intros; simp_state; upd_tac; sat n s I; fin.
+Ltac optnorm :=
+  repeat match goal with
+  | H : ?x <> None |- _ => let E := fresh "E" in destruct x eqn:E; [clear H | congruence]
+  | H : None <> None |- _ => congruence
+  end.
+(* when the flat saturation is not enough: split a disjunction, saturate again *)
+Ltac deep d n s I :=
+  first [ fin
+        | lazymatch d with
+          | S ?d' =>
+              match goal with
+              | |- context [inmaint s ?t] =>
+                  lazymatch goal with
+                  | _ : inmaint s t = _ |- _ => fail
+                  | _ => let E := fresh "E" in solve [destruct (inmaint s t) eqn:E; sat n s I; deep d' n s I]
+                  end
+              | H : _ \/ _ |- _ => solve [destruct H; sat n s I; deep d' n s I]
+              end
+          end ].
+Ltac eqnorm :=
+  repeat match goal with
+  | H : Some _ = Some _ |- _ => injection H as H; try subst
+  | H : Some _ = None |- _ => discriminate H
+  | H : None = Some _ |- _ => discriminate H
+  | H : true = false |- _ => discriminate H
+  | H : false = true |- _ => discriminate H
+  | H : ?a = ?a |- _ => clear H
+  end.
+Ltac clause n s I := intros; unfold slot; simp_state; upd_tac; optnorm; eqnorm; sat n s I; deep 2 n s I.
+(* the two clauses that quantify over reference kinds *)
+Ltac uclause n s I := let a := fresh "ka" in let b := fresh "kb" in intros ? a b; destruct a, b; cbn [ref]; clause n s I.
+Ltac rclause n s I := let a := fresh "ka" in intros ? a; destruct a; cbn [ref]; clause n s I.
+Ltac kinv n s I :=
+  constructor; [clause n s I | clause n s I | clause n s I | clause n s I | uclause n s I | rclause n s I
+               | clause n s I ..].
+(* debugging variant: leaves the unsolved sub-cases, saturated *)
+Ltac clause_dbg n s I := intros; unfold slot; simp_state; upd_tac; optnorm; eqnorm; sat n s I; try solve [deep 2 n s I].
+Ltac kinv_dbg n s I :=
+  constructor; [clause_dbg n s I | clause_dbg n s I | clause_dbg n s I | clause_dbg n s I
+               | let a := fresh "ka" in let b := fresh "kb" in intros ? a b; destruct a, b; cbn [ref]; clause_dbg n s I
+               | let a := fresh "ka" in intros ? a; destruct a; cbn [ref]; clause_dbg n s I
+               | clause_dbg n s I ..].
+
+(* unfold one label of kstep, split its guards *)
+Ltac start H s' := cbn [kstep] in H; guards; injection H as H; subst s'; bnorm.
